@@ -12,31 +12,42 @@ def FailInv (A : Auto) (x : Nat) : Prop :=
 
 def allLk (A : Auto) : Nat → Prop := fun x => 0 < x ∧ x < A.states.size
 
+/-- the final match lists: the list of every state is the entries of the atoms that are suffixes of its path, longest
+    first, among equal atoms the newest first (`specList`) -/
+structure MF (A : Auto) (atoms : List (Nat × Atom)) : Prop where
+  trie : Trie A
+  pool_size : A.pool.size = atoms.length
+  pool_info : ∀ (e : Nat) (a : Nat × Atom), atoms[e]? = some a →
+    ∃ nx, A.pool[e]? = some (a.1, a.2.bytes.length + a.2.backtrack, nx)
+  atoms_in : ∀ a ∈ atoms, ∃ s, s < A.states.size ∧ (A.st s).path = a.2.bytes
+  chain : ∀ x, x < A.states.size → ChainSeg A.pool (A.st x).matchesRef (specList atoms (A.st x).path) 0
+
 structure I3 (A : Auto) (atoms : List (Nat × Atom)) : Prop where
-  ms : MS A atoms (allLk A)
+  mf : MF A atoms
   root_fail : (A.st 0).failure = 0
   fail : ∀ x, 0 < x → x < A.states.size → FailInv A x
 
-theorem MS.congr {A B : Auto} {atoms : List (Nat × Atom)} {lk : Nat → Prop} (h : MS A atoms lk) (hs : Same A B)
-    (hp : B.pool = A.pool) (hr : ∀ j, (B.st j).matchesRef = (A.st j).matchesRef) : MS B atoms lk := by
-  have hP : pathsOf B = pathsOf A := pathsOf_congr hs.1 hs.2
-  refine ⟨h.trie.congr hs.1 hs.2, by rw [hp]; exact h.pool_size, by rw [hp]; exact h.pool_info, ?_, h.nonempty,
-    by rw [hr]; exact h.root_ref, by rw [hs.1]; exact h.lk_range, ?_, ?_⟩
+theorem MF.congr {A B : Auto} {atoms : List (Nat × Atom)} (h : MF A atoms) (hs : Same A B)
+    (hp : B.pool = A.pool) (hr : ∀ j, (B.st j).matchesRef = (A.st j).matchesRef) : MF B atoms := by
+  refine ⟨h.trie.congr hs.1 hs.2, by rw [hp]; exact h.pool_size, by rw [hp]; exact h.pool_info, ?_, ?_⟩
   · intro a ha
     obtain ⟨s, h1, h2⟩ := h.atoms_in a ha
     exact ⟨s, by rw [hs.1]; exact h1, by rw [shape_path (hs.2 s)]; exact h2⟩
   · intro x hx
-    obtain ⟨f, h1, h2, h3, h4⟩ := h.matched x hx
-    refine ⟨f, by rw [hs.1]; exact h1, h2, ?_, ?_⟩
-    · rw [shape_path (hs.2 f), shape_path (hs.2 x), hP]; exact h3
-    · rw [hp, hr, hr, shape_path (hs.2 x)]; exact h4
-  · intro x h0 hx hn
     rw [hs.1] at hx
-    rw [hp, hr, shape_path (hs.2 x)]; exact h.fresh x h0 hx hn
+    rw [hp, hr, shape_path (hs.2 x)]; exact h.chain x hx
 
-theorem I3_of_I2 {A : Auto} {atoms : List (Nat × Atom)} (h : I2 A atoms (allLk A)) : I3 A atoms := by
+theorem MF_of_I2 {A : Auto} {atoms : List (Nat × Atom)} (h : I2 A atoms (allLk A) (allLk A)) : MF A atoms := by
+  refine ⟨h.ms.trie, h.ms.pool_size, h.ms.pool_info, h.ms.atoms_in, ?_⟩
+  intro x hx
+  apply h.ms.complete_chain _ x rfl ?_ hx (fun g h0 hg _ => ⟨h0, hg⟩)
+  rcases Nat.eq_zero_or_pos x with e | e
+  · exact Or.inl e
+  · exact Or.inr ⟨e, hx⟩
+
+theorem I3_of_I2 {A : Auto} {atoms : List (Nat × Atom)} (h : I2 A atoms (allLk A) (allLk A)) : I3 A atoms := by
   have hT := h.ms.trie
-  refine ⟨h.ms, h.root_fail, ?_⟩
+  refine ⟨MF_of_I2 h, h.root_fail, ?_⟩
   intro x h0 hx
   obtain ⟨h1, h2⟩ := h.fail x ⟨h0, hx⟩
   have hne := hT.path_ne_nil hx h0
@@ -93,10 +104,8 @@ theorem optStep_I3 {A : Auto} {atoms : List (Nat × Atom)} (h : I3 A atoms) (cur
       · subst e; simp [hcs]
       · simp [e]
     have hP : pathsOf B = pathsOf A := pathsOf_congr hs.1 hs.2
-    have hlk : allLk B = allLk A := by unfold allLk; rw [hs.1]
     refine ⟨?_, ?_, ?_⟩
-    · rw [hlk]
-      apply h.ms.congr hs (by rw [← hB]; rfl)
+    · apply h.mf.congr hs (by rw [← hB]; rfl)
       intro j; rw [hst]; split
       · rename_i e; rw [e]
       · rfl
